@@ -251,7 +251,7 @@ class CaseRunner:
     def run(self, rule: str, fi: FuncInfo, case: str, setup: Callable, judge: Callable,
             flag_kinds=("float-arith", "int-div", "int-neg-pow", "none-operand", "none-attribute",
                         "bad-unpack", "bad-amount", "float-call", "math-call", "int-truncation",
-                        "missing-attribute"),
+                        "missing-attribute", "unbound-name", "bad-isinstance"),
             min_paths=1, site=None, **kw) -> List[Outcome]:
         # a subclass elsewhere in the package that overrides the analysed method is held to the same contract
         # (Money / Currency / MoneyMeta are reached by dynamic dispatch on the money flavour instead)
